@@ -4,6 +4,8 @@
 // simulated wire must be well-formed under R1 and decode to exactly the model, and libcoap's own parser must read them back
 // to the same message.
 #include "runner.h"
+#include <gnutls/gnutls.h>
+#include <gnutls/crypto.h>
 #include "world.h"
 #include "coapx.h"
 #include <algorithm>
@@ -75,7 +77,19 @@ struct C01 : Property {
     bool any_big = r.chance(0.03);
     for (int i = 0; i < n; i++) {
       bool tcp = r.chance(0.5);
-      ops.push_back(gen_msg(r, tcp, tcp && any_big && i == n / 2));
+      json m = gen_msg(r, tcp, tcp && any_big && i == n / 2);
+      // a third of the stream messages go over a WebSocket session instead (RFC 8323 section 4: Len = 0, one message per binary
+      // frame); their payloads are then sized so that the frame length lands around the 125/126 and 65535/65536 header forms
+      if (tcp && m.value("payload", "").size() / 2 < 5000 && r.chance(0.35)) {
+        m["ws"] = true;
+        if (r.chance(0.6)) {
+          size_t fixed = 3 + m.value("token", "").size() / 2 + (m.value("token", "").size() / 2 > 12 ? (m.value("token", "").size() / 2 > 268 ? 2 : 1) : 0);
+          for (auto &o : m["opts"]) fixed += o[1].get<std::string>().size() / 2 + 3;
+          int64_t target = r.chance(0.8) ? r.range(120, 132) : r.range(65530, 65542);
+          if (target > (int64_t)fixed + 1) m["payload"] = hex(r.bytes((size_t)(target - (int64_t)fixed + r.range(-4, 4))));
+        }
+      }
+      ops.push_back(m);
     }
     p["config"] = json::object();
     p["ops"] = ops;
@@ -134,8 +148,56 @@ struct C01 : Property {
         udp_rx.push_back(d.data);
       }
     });
+    // WebSocket peer: answers the HTTP upgrade (RFC 6455 4.2.2), sends its CSM, then collects the client's frames
+    int wlfd = simk::raw_listen(1, World::node_addr(1, 8080));
+    int wfd = -1;
+    Bytes wrx;
+    bool ws_up = false;
+    w.pollers.push_back([&]() {
+      if (wfd < 0) wfd = simk::raw_accept(wlfd);
+      if (wfd < 0) return;
+      simk::raw_stream_read(wfd, wrx);
+      if (ws_up) return;
+      std::string h(wrx.begin(), wrx.end());
+      size_t end = h.find("\r\n\r\n");
+      if (end == std::string::npos) return;
+      std::string key;
+      size_t kp = h.find("Sec-WebSocket-Key:");
+      if (kp != std::string::npos) {
+        kp += 18;
+        while (kp < h.size() && h[kp] == ' ') kp++;
+        size_t ke = h.find("\r\n", kp);
+        key = h.substr(kp, ke - kp);
+      }
+      std::string cat = key + "258EAFA5-E914-47DA-95CA-C5AB0DC85B11";
+      uint8_t dig[20];
+      gnutls_hash_fast(GNUTLS_DIG_SHA1, cat.data(), cat.size(), dig);
+      static const char *b64 = "ABCDEFGHIJKLMNOPQRSTUVWXYZabcdefghijklmnopqrstuvwxyz0123456789+/";
+      std::string acc;
+      for (int i = 0; i < 20; i += 3) {
+        uint32_t v = (uint32_t)dig[i] << 16 | (i + 1 < 20 ? (uint32_t)dig[i + 1] << 8 : 0) | (i + 2 < 20 ? dig[i + 2] : 0);
+        acc += b64[v >> 18 & 63];
+        acc += b64[v >> 12 & 63];
+        acc += i + 1 < 20 ? b64[v >> 6 & 63] : '=';
+        acc += i + 2 < 20 ? b64[v & 63] : '=';
+      }
+      std::string rsp = "HTTP/1.1 101 Switching Protocols\r\nUpgrade: websocket\r\nConnection: Upgrade\r\nSec-WebSocket-Accept: " + acc + "\r\nSec-WebSocket-Protocol: coap\r\n\r\n";
+      Bytes out(rsp.begin(), rsp.end());
+      r1::Msg csm;
+      csm.code = 0xE1;
+      csm.opts.push_back({2, r1::encode_uint(200000)});
+      csm.opts.push_back({4, {}});
+      csm.opts.push_back({6, r1::encode_uint(1024)});
+      Bytes fr = r1::ws_frame(r1::encode_ws_msg(csm), false, nullptr);
+      out.insert(out.end(), fr.begin(), fr.end());
+      simk::raw_stream_write(wfd, out);
+      wrx.erase(wrx.begin(), wrx.begin() + (long)end + 4);
+      ws_up = true;
+    });
     coap_session_t *us = cx::new_client(w, 0, ctx, World::node_addr(1, 5683), COAP_PROTO_UDP);
     coap_session_t *ts = cx::new_client(w, 0, ctx, World::node_addr(1, 5683), COAP_PROTO_TCP);
+    coap_session_t *wss = cx::new_client(w, 0, ctx, World::node_addr(1, 8080), COAP_PROTO_WS);
+    if (wss) { World::AsNode as(0); coap_ws_set_host_request(wss, coap_make_str_const("10.0.0.2")); }
     for (auto &f : plan["faults"])
       if (f.contains("write_cuts")) {
         std::deque<size_t> q;
@@ -161,10 +223,54 @@ struct C01 : Property {
         raw.push_back(b);
       }
     };
+    // WebSocket: strict RFC 6455 5.2 frame decoding (client frames are masked, final, binary, minimal length form), then the
+    // CoAP-over-WebSockets message inside (Len nibble 0)
+    size_t ws_consumed = 0;
+    auto take_ws_msgs = [&](std::vector<r1::Msg> &out, std::vector<Bytes> &raw) {
+      for (;;) {
+        const uint8_t *q = wrx.data() + ws_consumed;
+        size_t n = wrx.size() - ws_consumed;
+        if (n < 2) break;
+        size_t l7 = q[1] & 0x7f, hdr = 2;
+        uint64_t len = l7;
+        if (l7 == 126) { if (n < 4) break; len = (uint64_t)q[2] << 8 | q[3]; hdr = 4; }
+        else if (l7 == 127) { if (n < 10) break; len = 0; for (int i = 0; i < 8; i++) len = len << 8 | q[2 + i]; hdr = 10; }
+        bool masked = q[1] & 0x80;
+        if (masked) hdr += 4;
+        std::string bad;
+        if (q[0] != 0x82) bad = strfmt("first byte 0x%02x (expected FIN + binary opcode 0x82)", q[0]);
+        else if (!masked) bad = "client frame is not masked";
+        else if (l7 == 126 && len < 126) bad = strfmt("16-bit length form used for %llu bytes", (unsigned long long)len);
+        else if (l7 == 127 && len < 65536) bad = strfmt("64-bit length form used for %llu bytes", (unsigned long long)len);
+        else if (len > (1u << 24)) bad = strfmt("frame declares %llu bytes", (unsigned long long)len);
+        if (!bad.empty()) {
+          res.violate("R1.ws_frame_malformed", "frame_header", "WebSocket frame written by libcoap is malformed: " + bad + "; bytes " + hex(q, std::min<size_t>(n, 24)));
+          ws_consumed = wrx.size();
+          break;
+        }
+        if (n < hdr + len) break;
+        Bytes pl(q + hdr, q + hdr + len);
+        for (size_t i = 0; i < pl.size(); i++) pl[i] ^= q[hdr - 4 + (i & 3)];
+        ws_consumed += hdr + (size_t)len;
+        if (len > 65535) w.count("probe.ws_64bit_length_form");
+        else if (len > 125) w.count("probe.ws_16bit_length_form");
+        if (len == 126) w.count("probe.ws_frame_of_126_bytes");
+        r1::Msg m;
+        std::string why;
+        if (pl.size() < 2 || (pl[0] >> 4) != 0) { res.violate("R1.stream_malformed", "ws_len_nibble", "CoAP-over-WebSockets message with non-zero Len nibble or too short: " + hex(pl).substr(0, 100)); continue; }
+        m.code = pl[1];
+        r1::Verdict v = r1::decode_rest(pl.data() + 2, pl.size() - 2, pl[0] & 15, m, &why, true);
+        if (v == r1::REJECT) { res.violate("R1.stream_malformed", "malformed_ws", "malformed message in a WebSocket frame (" + why + "): " + hex(pl).substr(0, 200)); continue; }
+        if ((m.code >> 5) == 7) continue;
+        out.push_back(m);
+        raw.push_back(pl);
+      }
+    };
     bool out_of_order_seen = false, ext_seen = false;
     size_t idx = 0;
     for (auto &op : plan["ops"]) {
       bool tcp = op.value("tcp", false);
+      bool wsm = tcp && op.value("ws", false) && wss != nullptr;
       r1::Msg want;
       want.type = op.value("type", 0);
       want.code = op.value("code", 1);
@@ -174,7 +280,7 @@ struct C01 : Property {
       for (auto &o : op["opts"]) order.push_back({o[0].get<uint32_t>(), unhex(o[1].get<std::string>())});
       Bytes payload = unhex(op.value("payload", ""));
       size_t max_size = op.value("max_size", (size_t)0);
-      coap_session_t *s = tcp ? ts : us;
+      coap_session_t *s = wsm ? wss : tcp ? ts : us;
       r1::Msg model;        // what the API accepted
       model.type = tcp ? 0 : want.type;
       model.code = want.code;
@@ -254,7 +360,8 @@ struct C01 : Property {
       }
       std::vector<r1::Msg> got;
       std::vector<Bytes> raw;
-      if (tcp) take_tcp_msgs(got, raw);
+      if (wsm) take_ws_msgs(got, raw);
+      else if (tcp) take_tcp_msgs(got, raw);
       else {
         for (auto &dg : udp_rx) {
           r1::Msg m;
@@ -272,7 +379,7 @@ struct C01 : Property {
         }
         udp_rx.clear();
       }
-      std::string ctx = strfmt("message #%zu over %s", idx, tcp ? "TCP" : "UDP");
+      std::string ctx = strfmt("message #%zu over %s", idx, wsm ? "WebSocket" : tcp ? "TCP" : "UDP");
       if (mid == COAP_INVALID_MID) {
         w.count("probe.send_refused");
         if (!got.empty()) res.violate("R1.sent_although_refused", "sent_although_refused", ctx + ": coap_send reported failure but bytes were transmitted");
@@ -292,7 +399,7 @@ struct C01 : Property {
         World::AsNode as(0);
         coap_pdu_t *back = coap_pdu_init(COAP_MESSAGE_CON, COAP_EMPTY_CODE, 0, raw[0].size() + 16);
         if (back) {
-          if (!coap_pdu_parse(tcp ? COAP_PROTO_TCP : COAP_PROTO_UDP, raw[0].data(), raw[0].size(), back)) {
+          if (!coap_pdu_parse(wsm ? COAP_PROTO_WS : tcp ? COAP_PROTO_TCP : COAP_PROTO_UDP, raw[0].data(), raw[0].size(), back)) {
             r1::Msg tmp;
             bool limits_only = !tcp && r1::decode_udp(raw[0], tmp) == r1::REJECT;
             if (!limits_only) res.violate("R1.own_bytes_not_parsable", tcp ? "tcp" : "udp", ctx + ": coap_pdu_parse rejects the bytes libcoap produced: " + hex(raw[0]).substr(0, 200));
@@ -303,7 +410,8 @@ struct C01 : Property {
           }
           coap_delete_pdu(back);
         }
-        if (tcp && raw[0].size() > 65805) w.count("probe.tcp_32bit_length_form");
+        if (wsm) w.count("probe.ws_messages_judged");
+        else if (tcp && raw[0].size() > 65805) w.count("probe.tcp_32bit_length_form");
         else if (tcp && raw[0].size() > 270) w.count("probe.tcp_16bit_length_form");
         else if (tcp && raw[0].size() > 14) w.count("probe.tcp_8bit_length_form");
         if (model.token.size() > 8) w.count("probe.extended_token_on_wire");
@@ -316,6 +424,7 @@ struct C01 : Property {
       World::AsNode as(0);
       coap_session_release(us);
       coap_session_release(ts);
+      if (wss) coap_session_release(wss);
       coap_free_context(ctx);
     }
     w.end();
